@@ -54,7 +54,9 @@ def step_report(st0, A, after):
             for q in ([k] if st0.assort else range(K)):
                 old = st0.w[a][k] if st0.assort else st0.w[a][k][q]
                 if old > pyspec.EPS and not (Du[k] * Dv[q] > pyspec.EPS):
-                    skipped.append((k, q, a))
+                    skipped.append((k, q, a))              # guard on the denominator
+                elif 0.0 < old <= pyspec.EPS:
+                    skipped.append((k, q, a))              # guard on the old value: entries in (0, 1e-6] are left unchanged
     # membership columns skipped by the denominator guard are harmless for the directed proof; record anyway
     return {'snapped': snapped, 'min_rate': minrate, 'min_rate_after': r4, 'low_rate': not (minrate > pyspec.EPS),
             'affinity_update_skipped': skipped, 'clean': (not snapped) and minrate > pyspec.EPS}
@@ -80,3 +82,19 @@ def e2e_states(tr, meta):
         if t[0] == '@iter':
             liks[(int(t[1]), int(t[2]))] = (int(t[3]), int(t[4]), bits_to_float(t[5]))
     return out, liks
+
+
+def invariant_holds(st0, A):
+    """rows outside the source/target lists are zero (true of every reachable state; the property quantifies over those)"""
+    has_out, has_in = set(), set()
+    for a in range(st0.L):
+        for (i, j), m in A[a].items():
+            if m:
+                has_out.add(i)
+                has_in.add(j)
+    for i in range(st0.N):
+        if i not in has_out and any(x != 0.0 for x in st0.u[i]):
+            return False
+        if st0.directed and i not in has_in and any(x != 0.0 for x in st0.v[i]):
+            return False
+    return True
